@@ -7,6 +7,7 @@ import (
 	"encoding/json"
 	"errors"
 	"fmt"
+	"net/url"
 	"sort"
 	"strings"
 	"testing"
@@ -165,6 +166,10 @@ func modelKindAt(m *smodel.Model, def string, doc any, pointer string) string {
 	t := d.Type
 	cur := doc
 	for _, seg := range segs {
+		// santhosh writes instance locations as URL-escaped JSON pointers
+		if un, err := url.PathUnescape(seg); err == nil {
+			seg = un
+		}
 		seg = strings.NewReplacer("~1", "/", "~0", "~").Replace(seg)
 		t = m.Resolve(t)
 		if bt, ok := m.UnionBranch(t, cur); ok {
